@@ -98,6 +98,7 @@ func tableKey(nlri bgp.NLRI) addrPrefixKey {
 	default:
 		h = fnv1a.AddString64(h, nlri.String())
 	}
+	h = verifKey(h)
 	return addrPrefixKey(h)
 }
 
